@@ -560,6 +560,12 @@ def judge_iter(items, ops, got):
     return bad
 
 
+def iter_rng(ctx, salt):
+    """the iterator streams draw from their own generator (still a function of VERIF_SEED alone), so that the cases of
+    the older streams are what they were before these streams existed"""
+    return C.Rng((ctx.seed * 0x9E3779B97F4A7C15 + 0xC07 + sum(salt.encode()) * 1000003) & 0xFFFFFFFFFFFFFFFF)
+
+
 def gen_scripts(r, argc, n_random, exhaustive):
     scripts = []
     if exhaustive:
@@ -592,7 +598,7 @@ def iter_mode(ctx, mode, release, quick, full):
     exe, err = build_probe(ctx, mode, release)
     if exe is None:
         return                                               # reported by run_mode
-    r = ctx.rng
+    r = iter_rng(ctx, tag)
     lines, impl, origin = [], [], []
     worst = {}                                                # (kind, iter) -> smallest failing (case, script, got, why)
     argvs = IT_ARGVS if full else [IT_ARGVS[0], IT_ARGVS[3], IT_ARGVS[6]]
@@ -635,7 +641,7 @@ def iter_mode(ctx, mode, release, quick, full):
             origin.append((argv, (kind, sc)))
             for op in sc:
                 ctx.hist("iter_ops", IT_NAME[op[0]])
-            ctx.count(("iter", kind, min(len(img_argv), 6), tuple(o[0] for o in sc[:2]), sc[-1][0] if sc[-1] in IT_LAST else "-"))
+            ctx.count(("iter", kind, min(len(img_argv), 6), sc[0][0], sc[-1][0] if sc[-1] in IT_LAST else "-"))
     for (b_kind, kind), (_, argv, sc, got, why, items) in sorted(worst.items()):
         want = spec_iter(items, sc)[0]
         ctx.violation({"op": "iter", "kind": b_kind, "iter": kind, "mode": mode},
@@ -658,7 +664,7 @@ def iter_mode(ctx, mode, release, quick, full):
 def model_iter_stream(ctx, quick):
     """no probe: the Lean iterator model on spec-side images (argc 0 included, which execve cannot produce on this kernel)
     against the oracle, with the two known departures of the code as written substituted (as_written)"""
-    r = ctx.rng
+    r = iter_rng(ctx, "model")
     lines, exp = [], []
     for argc in range(0, 7):
         argv = IT_ARGVS[6][:argc]
@@ -961,7 +967,11 @@ def run(ctx):
                 "values with '=', entries without '=', empty entries, non-UTF-8); lookup keys derived from the block's names (each name, every proper "
                 "prefix, name+1 byte, name+'=', case variants); distinct_nontrivial = distinct (var|var_unix, answer kind, relation of key to the "
                 "names present, key length capped at 3, key has '=') classes + (link mode, argc class, has empty/non-UTF-8/very long argument, env size class) classes "
-                "+ shapes of the synthetic in-process cases (aux vectors with duplicate/unknown keys; ELF tables with REL and RELA entries, duplicate DT_* tags, several PT_DYNAMIC headers)")
+                "+ shapes of the synthetic in-process cases (aux vectors with duplicate/unknown keys; ELF tables with REL and RELA entries, duplicate DT_* tags, several PT_DYNAMIC headers) "
+                "+ iterator scripts: calls on ONE fresh args_os() / args() object (next, nth(k), skip(k).next(), step_by(k) polled to the end, len, size_hint, then optionally "
+                "count / last / fold by value), exhaustively every sequence of <= 2 of 13 stepping calls x 4 endings plus random scripts of 3..9 calls with k in "
+                "{0,1,2,3,5,7,argc-1,argc,argc+1,2^63,2^64-1}, over argc 1..6 (distinct arguments: empty, non-UTF-8) in every link mode and profile; argc 0 on spec-side images "
+                "through the model only; classes counted = (iterator, argc, first call, ending)")
     ctx.assumptions += [
         "Model/Start.lean + Model/Env.lean describe tiny-start resolve/from_auxv/relocate_symbols and tiny-std env.rs (checked by this run: the model is run on the raw kernel stack image, the environment and the executable's own relocation tables captured from each probe run)",
         "ELF well-formedness assumed by relocate_exact: R_RELATIVE targets pairwise distinct 8-byte words, disjoint from the relocation tables, .dynamic and program headers; no address arithmetic overflow; the PT_DYNAMIC program header is not at index 0 (the scan starts at index 1) — each is checked on the probes' own tables by this run",
@@ -969,6 +979,15 @@ def run(ctx):
         "observed only, not modelled: the `_start` assembly (rsp -> rdi, &_DYNAMIC -> rsi), the vDSO symbol lookup (vdso.rs) and the vDSO clock's agreement with the clock_gettime system call (each now() reading must lie between two system-call readings and never decrease)",
         "tiny-std has no environment iterator and four aux getters: the `env=` part of an observation line is what execve was given, aux addresses are taken from the process's own /proc/self/auxv with the getters' answers substituted/dereferenced",
         "release-profile probes supply their own `strlen` symbol (rustc 1.95 turns rusl's strlen loop into a call to the C symbol, which a no-libc link cannot resolve: observation, not a C07 violation)",
+    ]
+    ctx.assumptions += [
+        "the argument iterators are observed as stateful objects: the probe runs each script through the methods a program calls (it.nth, it.by_ref().skip(k).next(), "
+        "it.by_ref().step_by(k), it.len, it.size_hint, it.count, it.last, it.fold), so a library override of any of them is the code that runs; answers are judged by a plain-Python "
+        "cursor over the arguments the kernel image holds (every call relative to the current position, len/size_hint = exact remainder) and compared with Model/Env.lean runOps on the same raw image. "
+        "On the unchanged tree ArgsOs/Args override only next and len; the default bodies of nth / Skip::next / StepBy::next / fold / count / last / size_hint in the model are core's "
+        "(rustc 1.95), tied by this correspondence, not extracted. DoubleEndedIterator / Clone are not implemented by the library, so next_back / clone cannot be scripted; "
+        "count / last / fold take the iterator by value and therefore end a script (an override of them is not reached through by_ref())",
+        "known findings on the unchanged tree (reported as KNOWN-FINDING, theorem iter_ops_exact_partial excludes exactly these two calls): len() of a partly consumed ArgsOs/Args is argc, not the remainder; size_hint() is the default (0, None) although both types are ExactSizeIterator",
     ]
     ctx.assumptions += ["tiny-start/src/elf/aux.rs and dynlink.rs are additionally include!d into harness/c07 and run in-process on synthetic aux vectors / ELF tables (buffer address = load base); the REL relocation loop is exercised only there (x86-64 links emit RELA)"]
     ctx.trusted += ["no-libc probe /verif/harness-nolibc/c07probe (prints what tiny-std's API returns and dumps raw memory), the raw fork+execve launcher in checks/c07.py, strace (vDSO-in-use observation)"]
@@ -1029,6 +1048,10 @@ def replay(ctx, rp):
         items = it_items(parse_image(int(rec["sp"][0]), C.unhex(rec["stack"][0]))[1], kind)
         print("arguments demand: it " + " ".join(spec_iter(items, sc)[0]))
         bad = judge_iter(items, sc, (rec.get("it") or [[]])[0])
+        for b in bad:
+            if ctx.known and any(k.get("status") == "known" and C.sig_match(k.get("signature", {}), {"op": "iter", "kind": b[0]}) for k in ctx.known):
+                print("KNOWN-FINDING:", b)
+        bad = [b for b in bad if not any(k.get("status") == "known" and C.sig_match(k.get("signature", {}), {"op": "iter", "kind": b[0]}) for k in ctx.known)]
     for b in bad:
         print("FAILS:", b)
     return 1 if bad else 0
